@@ -111,17 +111,21 @@ func die(code int, f string, a ...any) {
 }
 
 func loadProps() map[string]*PropCfg {
-	b, err := os.ReadFile(filepath.Join(verifDir, "sim", "props.json"))
-	if err != nil {
-		die(2, "%v", err)
-	}
-	var l []*PropCfg
-	if err := json.Unmarshal(b, &l); err != nil {
-		die(2, "props.json: %v", err)
+	files, err := filepath.Glob(filepath.Join(verifDir, "sim", "props.d", "*.json"))
+	if err != nil || len(files) == 0 {
+		die(2, "no property configuration under sim/props.d")
 	}
 	m := map[string]*PropCfg{}
-	for _, p := range l {
-		m[p.ID] = p
+	for _, f := range files {
+		b, err := os.ReadFile(f)
+		if err != nil {
+			die(2, "%v", err)
+		}
+		var p PropCfg
+		if err := json.Unmarshal(b, &p); err != nil {
+			die(2, "%s: %v", f, err)
+		}
+		m[p.ID] = &p
 	}
 	return m
 }
@@ -207,7 +211,7 @@ func build(pkgs []string, verbose bool) string {
 
 	if _, err := os.Stat(filepath.Join(dir, "overlay.json")); err != nil {
 		// drop older caches to bound disk use (keep the 3 most recent)
-		pruneCaches(cacheRoot, dir, 3)
+		pruneCaches(cacheRoot, dir, 10)
 		t0 := time.Now()
 		cmd := exec.Command(filepath.Join(verifDir, "bin", "fsim-instrument"),
 			"-repo", repoDir, "-out", dir, "-lib", filepath.Join(verifDir, "sim", "lib"),
